@@ -15,6 +15,8 @@ def main():
     for pkg, prof in (("layoutmon", "fastdebug"), ("layoutmon", "release"), ("vecmon", "dev"), ("vecmon", "release"), ("vecmon", "devabort"), ("vecmon", "relabort")):
         common.cargo_build(pkg, prof)
         print("built", pkg, prof, flush=True)
+    b, feats = common.cargo_build_all_features("layoutmon", "fastdebug")
+    print("built layoutmon with the cargo features of truc:", feats, flush=True)
     props_probe.probe_deps()
     print("built probe dependencies", flush=True)
     ctx = common.Ctx("C04", "quick", seed)
